@@ -329,6 +329,17 @@ func TestVerifC36(t *testing.T) {
 		}
 	}
 
+	// determinism gate: the same history on fresh objects twice must reach the same state
+	{
+		h := []c36Step{{0, 2}, {1, 2}, {0, 2}, {0, 4}, {0, 2}, {1, 0}, {0, 2}}
+		a, _ := c36Run(r, h, len(h))
+		b, _ := c36Run(r, h, len(h))
+		if a != b {
+			t.Fatalf("NONDETERMINISM: history %s reached %q and %q", c36HistString(h), a, b)
+		}
+		r.ReplayedTwice(1)
+	}
+
 	// (1) explicit-state BFS. State = (real counters, reference runs). The failure
 	// counter is the only object that survives a heartbeat (node.go builds a fresh
 	// action per heartbeat), and the oracle depends on the reference runs only, so
